@@ -268,7 +268,7 @@ func specBE(bytes []byte, n int) int64 {
 
 //@ func parseTagAndLength [C05 C16]
 //@   strict
-//@   ensures e == nil ==> 2 <= off && off <= len(bytes) && r.len >= 0
+//@   ensures e == nil ==> 2 <= off && off <= len(bytes) && r.len >= 0 && r.len < 1<<24
 //@   loop 0: invariant 1 <= off && off <= len(bytes)
 
 // ---- BIT STRING ----------------------------------------------------------------------
@@ -376,3 +376,22 @@ func specEncLen(s structEncoder, n int) int {
 //@ func (*berTypeEncoder).Encode [C04]
 //@   requires b != nil && b.tagAndLen != nil && b.value != nil && b.tagAndLen.Len() >= 0 && b.value.Len() >= 0 && b.tagAndLen.Len()+b.value.Len() <= len(dst)
 //@   modifies elems(dst[:b.tagAndLen.Len()+b.value.Len()])
+
+// ---- ParseField (C16): the decoder's own indexing, slicing and offset arithmetic -------------------------
+// Package reflect is an opaque dependency here (arbitrary results, its own panics not modelled); recursive
+// calls go through this contract. Checked for every byte string: no index or slice expression of
+// ParseField leaves `bytes`, no offset computation wraps around.
+//@ func ParseField [C16]
+//@   linear valArray, structParams
+//@   loop 0: invariant 0 <= i && len(structParams) == i
+//@   loop 1: invariant 1 <= i
+//@   loop 2: invariant 0 <= offset && offset <= totalLen && totalLen == int64(len(bytes)) && 0 <= current
+//@   loop 3: invariant 0 <= current
+//@   loop 4: invariant 0 <= offset && offset <= totalLen && totalLen == int64(len(bytes))
+//@   loop 5: invariant 0 <= current
+//@   loop 6: invariant 0 <= offset && offset <= int64(len(bytes))
+//@   loop 7: invariant 0 <= i && sliceLen == len(valArray)
+
+// parseFieldParameters reads a struct tag (strings.Split, strconv): assumed to return some parameter set.
+//@ func parseFieldParameters [C16]
+//@   trusted
